@@ -168,7 +168,7 @@ class State:
         if self.is_terminal():
             raise InvalidStateError(f'Cannot exit a terminal state {self.LABEL}')
 
-    def create_state(self, state_label: Hashable, *args: Any, **kwargs: Any) -> 'State':
+    def create_state(self, state_label: Hashable, /, *args: Any, **kwargs: Any) -> 'State':
         return self.state_machine.create_state(state_label, *args, **kwargs)
 
     def do_enter(self) -> None:
@@ -384,7 +384,7 @@ class StateMachine(metaclass=StateMachineMeta):
     def set_debug(self, enabled: bool) -> None:
         self._debug: bool = enabled
 
-    def create_state(self, state_label: Hashable, *args: Any, **kwargs: Any) -> State:
+    def create_state(self, state_label: Hashable, /, *args: Any, **kwargs: Any) -> State:
         # XXX: this method create state from label, which is duplicate as _create_state_instance and less generic
         # because the label is defined after the state and required to be know before calling this function.
         # This method should be replaced by `_create_state_instance`.
